@@ -445,7 +445,7 @@ func verifH_C04_rules() {
 	verifReach("end")
 }
 
-//verif:harness id=C04 tier=quick,thorough witness=end bounds="options on the conforming document and on unrelated violations: every subset of {DisableExamplesValidation, DisableSchemaDefaultsValidation, DisableSchemaPatternValidation, EnableSchemaFormatValidation} keeps the conforming document accepted and does not hide a missing response description / blank parameter name / unresolved reference; a default (example) violating its schema, in a component or a property, is reported exactly when the option naming defaults (examples) is not given"
+//verif:harness id=C04 tier=quick,thorough witness=end bounds="options on the conforming document and on unrelated violations: every subset of {DisableExamplesValidation, DisableSchemaDefaultsValidation, DisableSchemaPatternValidation, EnableSchemaFormatValidation} keeps the conforming document accepted and does not hide a missing response description / blank parameter name / unresolved reference / an example object with value next to externalValue (under a parameter, under every media type); a default (example) violating its schema, in a component or a property, is reported exactly when the option naming defaults (examples) is not given"
 func verifH_C04_options() {
 	doc := verifLoadBase()
 	if doc == nil {
@@ -468,7 +468,7 @@ func verifH_C04_options() {
 	ctx := context.Background()
 	verifAssert(doc.Validate(ctx, opts...) == nil, "C04 options: the conforming document is accepted under every option set")
 	sites := verifCollectSites(doc)
-	violation := verifChoose("violation", 5)
+	violation := verifChoose("violation", 7)
 	bad := &Schema{Type: &Types{"integer"}}
 	switch violation {
 	case 0:
@@ -477,12 +477,30 @@ func verifH_C04_options() {
 		sites.params[0].Name = ""
 	case 2:
 		sites.schemaRefs[0].Ref, sites.schemaRefs[0].Value = "#/components/schemas/Nope", nil
+	case 5, 6: // an example object that breaks its own rules (value next to externalValue), under a parameter or a media type:
+		// the examples option only concerns the comparison of example values with schemas
+		badExample := Examples{"e": {Value: &Example{Value: "a", ExternalValue: "https://e.example/x"}}}
+		if violation == 5 {
+			var p *Parameter
+			for _, c := range sites.params {
+				if c.Schema != nil && c.Schema.Value != nil && c.Schema.Value.Type != nil && c.Schema.Value.Type.Is("string") && p == nil {
+					p = c
+				}
+			}
+			if p == nil {
+				return
+			}
+			p.Example, p.Examples = nil, badExample
+		} else {
+			mt := sites.medias[verifChoose("media", len(sites.medias))]
+			mt.Example, mt.Examples = nil, badExample
+		}
 	case 3: // a default that violates its schema: switched off by the defaults option only
 		bad.Default = "x"
 	case 4: // an example that violates its schema: switched off by the examples option only
 		bad.Example = "x"
 	}
-	if violation >= 3 {
+	if violation == 3 || violation == 4 {
 		// ... in a component schema, or in a property of one
 		if verifChoose("nested", 2) == 1 {
 			bad = &Schema{Type: &Types{"object"}, Properties: Schemas{"p": {Value: bad}}}
